@@ -33,6 +33,23 @@ HARNESSES = {
     "cleanup_keeps_newest_n3": ("cleanup", False, ["C07", "C14"], "real remove_or_compress_too_old_logfiles_impl, recording stubs", "listing length == 3"),
     "cleanup_keeps_newest_n4": ("cleanup", False, ["C07", "C14"], "real remove_or_compress_too_old_logfiles_impl, recording stubs", "listing length == 4"),
     "cleanup_keeps_newest_n5": ("cleanup", False, ["C07", "C14"], "real remove_or_compress_too_old_logfiles_impl, recording stubs", "listing length == 5"),
+    "highest_index_empty": ("names", False, ["C06", "C14"], "real get_highest_index on a stubbed listing", "catalogue entry: empty directory"),
+    "highest_index_single": ("names", False, ["C06", "C14"], "real get_highest_index on a stubbed listing", "catalogue entry: one rotated file"),
+    "highest_index_three": ("names", False, ["C06", "C14"], "real get_highest_index on a stubbed listing", "catalogue entry: three rotated files"),
+    "highest_index_name_with_r": ("names", False, ["C06", "C14"], "real get_highest_index: infix = text after the LAST \"_r\"", "catalogue entry: basename web_requests"),
+    "highest_index_two_digit": ("names", False, ["C06", "C14"], "real get_highest_index on a stubbed listing", "catalogue entry: indices 7 and 12"),
+    "highest_index_gz_only": ("names", False, ["C06", "C14"], "real get_highest_index sees compressed files (regression check for F12)", "catalogue entry: only .gz files"),
+    "filter_member": ("filter", False, ["C14", "C10"], "real FileSpec::filter_files + InfixFilter", "catalogue entry: family member"),
+    "filter_longer_basename": ("filter", False, ["C14", "C10"], "real FileSpec::filter_files + InfixFilter", "catalogue entry: longer basename sharing the prefix"),
+    "filter_other_suffix": ("filter", False, ["C14", "C10"], "real FileSpec::filter_files + InfixFilter", "catalogue entry: other suffix"),
+    "filter_current_is_not_numbered": ("filter", False, ["C14", "C07"], "InfixFilter::Numbrs never selects the rCURRENT infix", "catalogue entry: rCURRENT"),
+    "filter_no_infix": ("filter", False, ["C14", "C10"], "real FileSpec::filter_files + InfixFilter", "catalogue entry: no infix"),
+    "filter_multibyte_neighbour": ("filter", False, ["C14", "C10"], "foreign multi-byte name is skipped without panic (regression check for F2)", "catalogue entry: foo\u00e9.log"),
+    "filter_equals_current": ("filter", False, ["C14", "C16"], "InfixFilter::Equls selects exactly the current infix", "catalogue entry: Equls(rCURRENT)"),
+    "filter_compressed": ("filter", False, ["C14", "C07"], "compressed members are selected with suffix gz", "catalogue entry: .log.gz"),
+    "ts_infix_member": ("tsinfix", False, ["C10", "C06"], "real ts_infix_from_path", "catalogue entry: standard timestamp name"),
+    "ts_infix_short_name": ("tsinfix", False, ["C10", "C06"], "real ts_infix_from_path does not panic on a shorter name (regression check for F5)", "catalogue entry: number-named file"),
+    "ts_infix_restart_sibling": ("tsinfix", False, ["C10", "C06"], "real ts_infix_from_path", "catalogue entry: .restart sibling"),
 }
 THOROUGH_ONLY = {"cleanup_keeps_newest_n4", "cleanup_keeps_newest_n5"}
 
@@ -223,7 +240,7 @@ def run_groups(harness_names, prop, tier, repo, known, match_known):
             out["undecided"].append("kani: %s" % e)
             return out
         timeout = int(os.environ.get("VERIF_KANI_TIMEOUT", "1500" if tier == "quick" else "3600"))
-        cmd, text, rc, wall = run_kani(d, names, timeout, jobs=int(os.environ.get("VERIF_KANI_JOBS", "8")))
+        cmd, text, rc, wall = run_kani(d, names, timeout, jobs=int(os.environ.get("VERIF_KANI_JOBS", "14")))
         out["cmds"].append(cmd)
         res = parse_output(text)
         if rc == -9:
